@@ -48,7 +48,7 @@ Definition is_typing (i : N) : bool :=
 (* identifiers with a special meaning as a type name; an ordinary class may not carry one of them *)
 Definition is_special (i : N) : bool :=
   (i =? id_Any)%N || (i =? id_Optional)%N || (i =? id_Union)%N || (i =? id_Literal)%N ||
-  (i =? id_Never)%N || (i =? id_nothing)%N || (i =? id_Annotated)%N || (i =? id_Type)%N.
+  (i =? id_nothing)%N || (i =? id_Annotated)%N || (i =? id_Type)%N.
 
 (* pytd.NamedType / ClassType names: "builtins.<id>", "typing.<id>", or any other (possibly dotted) name *)
 Inductive name := NB (i : N) | NT (i : N) | NP (i : N).
@@ -480,21 +480,32 @@ Definition form_set_on {A} (c : ctx) (key : A -> list token) (l : list A) : list
   if in_param c then fold_left (compat_step_on key) compat_items d else d.
 
 (* the union case of norm; `pairs` are the members paired with their canonical forms *)
+Definition u_key (c : ctx) (p : ty * ty) : list token := print_ty c (fst p).
+Definition u_none (c : ctx) (p : ty * ty) : bool := is_none_s (u_key c p).
+Definition u_lit (p : ty * ty) : bool := is_lit (fst p).
+Definition u_ks (c : ctx) (pairs : list (ty * ty)) := form_set_on c (u_key c) pairs.     (* members that are printed *)
+Definition u_nl (c : ctx) (pairs : list (ty * ty)) := filter (fun p => negb (u_lit p)) (u_ks c pairs).  (* printed in place *)
+Definition u_ls (c : ctx) (pairs : list (ty * ty)) := filter u_lit (u_ks c pairs).       (* coalesced into one Literal[...] *)
+Definition u_nl' (c : ctx) (pairs : list (ty * ty)) := filter (fun p => negb (u_none c p)) (u_nl c pairs).
+
 Definition norm_union (c : ctx) (pairs : list (ty * ty)) : ty :=
-  let ks := form_set_on c (fun p => print_ty c (fst p)) pairs in   (* members that are printed *)
-  let nl := filter (fun p => negb (is_lit (fst p))) ks in           (* printed in place *)
-  let ls := filter (fun p => is_lit (fst p)) ks in                  (* coalesced into one Literal[...] *)
-  let nl' := filter (fun p => negb (is_none_s (print_ty c (fst p)))) nl in
+  let nl := u_nl c pairs in
+  let ls := u_ls c pairs in
   let lg := match ls with [] => [] | _ => [join_types (map snd ls)] end in
   match map snd nl ++ lg with
   | [] => Union []
   | [x] => x
   | _ =>
-      if existsb (fun p => is_none_s (print_ty c (fst p))) nl
-      then mk_union [match map snd nl' ++ lg with [x] => x | l => mk_union l end;
+      if existsb (u_none c) nl
+      then mk_union [match map snd (u_nl' c pairs) ++ lg with [x] => x | l => mk_union l end;
                      Named (NP id_NoneType)]
       else mk_union (map snd nl ++ lg)
   end.
+
+(* the members of the re-read union, in the order the reader meets them *)
+Definition union_F (c : ctx) (pairs : list (ty * ty)) : list ty :=
+  map snd (u_nl' c pairs) ++ map snd (u_ls c pairs)
+  ++ (if existsb (u_none c) (u_nl c pairs) then [Named (NP id_NoneType)] else []).
 
 Fixpoint norm (c : ctx) (t : ty) : ty :=
   match t with
@@ -525,7 +536,7 @@ Definition ord_id (env : penv) (i : N) : bool :=           (* an ordinary class/
 Definition wf_name (env : penv) (n : name) : bool :=
   match n with
   | NB i | NP i => ord_id env i
-  | NT i => is_typing i && negb (is_special i)
+  | NT i => is_typing i && negb (is_special i) && negb (is_tvar env i)
   end.
 Definition wf_lit (env : penv) (v : lit) : bool :=
   match v with LEnum i => ord_id env i && negb (i =? id_NoneType)%N | _ => true end.
@@ -614,9 +625,7 @@ Fixpoint stable (c : ctx) (t : ty) : bool :=
       forallb (stable c) ps && match removelast ps with [NothingT] => false | _ => true end
   | Annot t _ => stable c t
   | Union ts =>
-      forallb (stable c) ts &&
-      (let ks := form_set_on c (print_ty c) ts in
-       nodup_by ty_eqb (map (norm c) ks))
+      forallb (stable c) ts && nodup_by ty_eqb (union_F c (map (fun t => (t, norm c t)) ts))
   | _ => true
   end.
 
@@ -904,10 +913,39 @@ Fixpoint apply_mutators (s : sig) (ms : list (N * ty)) : option sig :=
   | m :: r => match apply_mutator s m with Some s' => apply_mutators s' r | None => None end
   end.
 
+(* pytd_utils.GetTypeParameters *)
+Fixpoint tparams (t : ty) : list N :=
+  match t with
+  | TParam i => [i]
+  | Generic _ ps | TupleT _ ps | CallableT _ ps => flat_map tparams ps
+  | Union ts => flat_map tparams ts
+  | Annot t _ => tparams t
+  | _ => []
+  end.
+
+(* definitions._VerifyMutators (run by finalize_ast, before ConvertTypingToNative): a mutated type that is a
+   GenericType at that time may only mention type parameters of the parameter types or of the enclosing
+   class's bases (`scope`).  Optional[..]/Union[..] are still GenericTypes then; a union that came from
+   Literal[a, b] is not, but it has no type parameters, so testing the converted type is equivalent. *)
+Definition is_generic_ty (t : ty) : bool :=
+  match t with Generic _ _ | TupleT _ _ | CallableT _ _ | Union _ => true | _ => false end.
+Definition sig_tparams (s : sig) : list N :=
+  flat_map (fun p => tparams (p_ty p)) (s_params s)
+  ++ match s_star s with Some st => tparams (snd st) | None => [] end
+  ++ match s_sstar s with Some st => tparams (snd st) | None => [] end.
+Definition verify_mutators (scope : list N) (s : sig) : bool :=
+  let inscope := scope ++ sig_tparams s in
+  forallb (fun p => match p_mut p with
+                    | Some m => if is_generic_ty m
+                                then forallb (fun i => existsb (N.eqb i) inscope) (tparams m)
+                                else true
+                    | None => true
+                    end) (s_params s).
+
 Definition first_param (rs : rsig) : option rparam :=
   match rs_pos rs ++ rs_reg rs ++ rs_kw rs with p :: _ => Some p | [] => None end.
 
-Definition parse_sig (env : penv) (ts : list token) : option sig :=
+Definition parse_sig (env : penv) (scope : list N) (ts : list token) : option sig :=
   match ts with
   | TLPar :: r =>
       let after_params :=
@@ -948,7 +986,10 @@ Definition parse_sig (env : penv) (ts : list token) : option sig :=
                               then [(id_self, p_ty q)] else []
                           | _, _ => []
                           end in
-                        apply_mutators s0 (ms ++ selfm)
+                        match apply_mutators s0 (ms ++ selfm) with
+                        | Some s1 => if verify_mutators scope s1 then Some s1 else None
+                        | None => None
+                        end
                     | _, _, _, _, _, _, _ => None
                     end
                   else None
@@ -1044,7 +1085,7 @@ Definition sig_names (s : sig) : list N :=
   map p_name (s_params s) ++ match s_star s with Some st => [fst st] | None => [] end
   ++ match s_sstar s with Some st => [fst st] | None => [] end.
 
-Definition wf_sig (env : penv) (c : ctx) (s : sig) : bool :=
+Definition wf_sig (env : penv) (scope : list N) (c : ctx) (s : sig) : bool :=
   forallb (fun p => wf env (p_ty p) &&
                     match p_mut p with Some m => wf env m && negb (p_opt p) | None => true end)
           (s_params s) &&
@@ -1054,14 +1095,24 @@ Definition wf_sig (env : penv) (c : ctx) (s : sig) : bool :=
   match s_sstar s with Some st => wf_container env true st | None => true end &&
   wf env (s_ret s) &&
   (* a self parameter that the reader will mutate must not be optional *)
-  negb (self_mutated c s && match s_params s with p :: _ => p_opt p | [] => false end).
+  negb (self_mutated c s && match s_params s with p :: _ => p_opt p | [] => false end) &&
+  (* _VerifyMutators, on what the reader will see *)
+  verify_mutators scope (norm_sig c s).
 
 (* the signature is unchanged by the round trip when: every type is stable, and `self` does not get the
    implicit mutation (or already carries exactly it) *)
+(* a type that is not Any must not become Any (a one-member union of Any): VisitParameter would then
+   leave the annotation out on the second printing *)
+Definition any_ok (c : ctx) (t : ty) : bool := is_any t || negb (is_any (norm (ctx_param c) t)).
+
 Definition stable_sig (c : ctx) (s : sig) : bool :=
-  forallb (fun p => stable (ctx_param c) (p_ty p) &&
+  forallb (fun p => stable (ctx_param c) (p_ty p) && any_ok c (p_ty p) &&
                     match p_mut p with Some m => stable (ctx_plain c) m | None => true end) (s_params s) &&
-  match s_star s with Some st => stable (ctx_param c) (container_elem (snd st)) | None => true end &&
-  match s_sstar s with Some st => stable (ctx_param c) (container_elem (snd st)) | None => true end &&
+  match s_star s with
+  | Some st => stable (ctx_param c) (container_elem (snd st)) && any_ok c (container_elem (snd st))
+  | None => true end &&
+  match s_sstar s with
+  | Some st => stable (ctx_param c) (container_elem (snd st)) && any_ok c (container_elem (snd st))
+  | None => true end &&
   stable (ctx_plain c) (s_ret s) &&
   negb (self_mutated c s).
